@@ -91,10 +91,10 @@ def class_sum_form(den):
             return None
         if kd is True and p is None:
             return call_arg(inner, 0, 'a'), a, a
-        if kd is False and p is not None:
-            return call_arg(inner, 0, 'a'), a, p[0]
+        if kd is False:
+            return call_arg(inner, 0, 'a'), a, (p[0] if p is not None else None)          # None: the summed axis is not put back
         return None
-    if is_call_to(inner, 'numpy.einsum') and p is not None:
+    if is_call_to(inner, 'numpy.einsum'):
         sub = const_val(call_arg(inner, 0))
         try:
             ins_, out = einsum_parse(sub)
@@ -106,7 +106,7 @@ def class_sum_form(den):
         removed = [c for c in inl if c not in outl]
         if len(removed) != 1 or [c for c in inl if c in outl] != list(outl):
             return None
-        return call_arg(inner, 1), inl.index(removed[0]) - len(inl), p[0]
+        return call_arg(inner, 1), inl.index(removed[0]) - len(inl), (p[0] if p is not None else None)
     return None
 
 
@@ -155,7 +155,63 @@ def normalisation_sites(graph):
     return out
 
 
-def check_posterior_routine(run, A, qual, class_axis, want_weight, want_mask, min_sites=1):
+def static_rank(t, g, depth=0):
+    """rank of an array term where the function itself fixes it: a parameter whose shape is unpacked into n names (`F, K, T = x.shape`), indexed by loop indices /
+    integers (one axis less each), by index vectors and slices (rank kept), combined elementwise; None when the terms do not show it"""
+    from ..walk import index_chain
+    t = strip_views(t)
+    if not isinstance(t, T) or depth > 12:
+        return None
+    if t.op == 'param':
+        ns = {x.args[2] for e in g.events if e.term is not None for x in walk_terms(e.term) if x.op == 'unpack' and isinstance(x.args[2], int)
+              and strip_views(x.args[0]).op == 'attr' and strip_views(x.args[0]).args[1] == 'shape' and strip_views(strip_views(x.args[0]).args[0]) is t}
+        return ns.pop() if len(ns) == 1 else None
+    if t.op in ('binop', 'iop') and t.args[0] in ('Add', 'Sub', 'Mult', 'Div'):
+        rs = [static_rank(z, g, depth + 1) for z in t.args[1:]]
+        rs = [r for r in rs if r is not None]
+        return max(rs) if rs else None          # operands whose shape the function does not unpack are taken to broadcast against the one it does
+    if is_call_to(t, 'numpy.exp', 'numpy.log', 'numpy.abs', 'numpy.sqrt', 'numpy.square', 'numpy.conj', 'numpy.real', 'numpy.maximum', 'numpy.minimum', 'numpy.clip',
+                  'numpy.asarray', 'numpy.copy', 'numpy.nan_to_num'):
+        return static_rank(call_arg(t, 0), g, depth + 1)
+    if is_call_to(t, 'numpy.sum', 'numpy.amax', 'numpy.max', 'numpy.amin', 'numpy.min', 'numpy.mean'):
+        r = static_rank(call_arg(t, 0), g, depth + 1)
+        kd, ax_ = call_arg(t, None, 'keepdims'), call_arg(t, 1, 'axis')
+        if r is None or ax_ is None:
+            return None
+        if kd is not None and const_val(kd) is True:
+            return r
+        return r - 1 if kd is None and isinstance(const_val(ax_), int) and not isinstance(const_val(ax_), bool) else None
+    if t.op == 'sub':
+        base, items = index_chain(t)
+        r = static_rank(base, g, depth + 1)
+        if r is None:
+            return None
+        for it_ in items:
+            if isinstance(it_, tuple) and it_ and it_[0] == 'index':
+                r -= 1
+            elif isinstance(it_, T) and it_.op == 'const' and isinstance(it_.args[0], int) and not isinstance(it_.args[0], bool):
+                r -= 1
+            elif isinstance(it_, T) and it_.op == 'const' and it_.args[0] is None:
+                r += 1
+            elif isinstance(it_, T) and (it_.op == 'slice' or (it_.op == 'const' and it_.args[0] is Ellipsis)):
+                pass
+            elif isinstance(it_, T) and it_.op in ('elem', 'mu'):
+                # a row of an index table (a permutation) or the scalar loop index of a for loop over a range / a generator of integers
+                lp = it_.extra if it_.op == 'elem' else None
+                it_iter = strip_views(lp.iter) if lp is not None and getattr(lp, 'iter', None) is not None else None
+                if it_iter is not None and is_call_to(it_iter, 'builtin.range'):
+                    r -= 1
+                elif it_iter is not None and any(is_call_to(z, 'itertools.permutations') for z in walk_terms(it_iter, into_mu=False)):
+                    pass          # a row of the table of permutations: an index vector, the axis stays
+                else:
+                    return None
+            else:
+                return None
+        return r
+    return None
+
+
+def check_posterior_routine(run, A, qual, class_axis, want_weight, want_mask, min_sites=1, rank_fixed=False):
     fn = A.prog.func(qual)
     g = A.graphs.get(fn)
     sites = normalisation_sites(g)
@@ -164,6 +220,14 @@ def check_posterior_routine(run, A, qual, class_axis, want_weight, want_mask, mi
     short = qual.split('::')[1]
     for div, num, (s, x, ax, kd, floored) in sites:
         where = fn.loc(div.node)
+        if rank_fixed and isinstance(ax, int) and not isinstance(ax, bool) and ax >= 0:
+            # an axis counted from the front names the class axis only for an operand of known rank (the routine that works on one frequency of a (F, K, T) input;
+            # for the documented (..., K, N) operand of the general routine it is a deviation)
+            rk = static_rank(x, g)
+            if rk is None:
+                run.unresolved('R-AXIS', f'{short}: normalising sum over the class axis', where, f'np.sum(axis={ax}) counts from the front and the rank of its operand is not fixed by the function')
+                continue
+            ax = ax - rk
         run.check(floored, 'ORDER', f'{short}: normalising sum is floored by a positive constant', where, 'maximum(sum, tiny)',
                   'the denominator is a bare sum: 0/0 for observations whose classes are all inactive / underflowed',
                   construct=f'ORDER::{qual}::denominator-floor')
@@ -181,6 +245,12 @@ def check_posterior_routine(run, A, qual, class_axis, want_weight, want_mask, mi
                           construct=f'ORDER::{qual}::exp-factor')
             continue
         l, a1, kd1 = exp_core(exps[0][0])
+        if rank_fixed and isinstance(a1, int) and not isinstance(a1, bool) and a1 >= 0:
+            rk = static_rank(l, g)
+            if rk is None:
+                run.unresolved('R-AXIS', f'{short}: max-subtraction over the class axis', where, f'amax(axis={a1}) counts from the front and the rank of its operand is not fixed by the function')
+                continue
+            a1 = a1 - rk
         run.check(plain_log_pdf(l), 'ORDER', f'{short}: the max-shift is applied to the component log-pdf as given', where, '',
                   'the value that is max-shifted and exponentiated is a transformed log-pdf (masking / weighting in the log domain introduces -inf: '
                   '-inf - (-inf) = NaN for observations whose classes are all inactive or have zero weight)', construct=f'ORDER::{qual}::log-domain-input')
@@ -504,7 +574,7 @@ def check_weights_and_initialisers(run, A):
             detail = f'divisor sums axis {cs[1]} and keeps it at {cs[2]}' if cs is not None else 'divisor is not a sum of the drawn array over one axis'
             # the drawn array has the class count on axis -2
             size = call_arg(strip_views(num), None, 'size')
-            size_ok = False
+            size_ok = None          # None: the shape of the draw is written in a way this rule does not read
             if size is not None:
                 for alt in unwrap_gamma(size):
                     alt = strip_views(alt)
@@ -523,6 +593,11 @@ def check_weights_and_initialisers(run, A):
                         if base.op == 'tuple' and len(base.args[0]) >= 2:
                             k = base.args[0][-2]
                             size_ok = any(x.op == 'param' and x.args[0] == 'num_classes' for x in walk_terms(k))
+            if (cs is None or size_ok is None) and not (cs is not None and not ok) and size_ok is not False:
+                # the divisor / the shape is not one of the forms read here: not a deviation, but not decided either
+                run.unresolved('R-AXIS', f'{q.split("::")[1]}: random start normalised over the class axis', where,
+                               f'{detail}; class count on axis -2: {size_ok} - the divisor or the shape of the draw is written in a form this rule does not read')
+                continue
             run.check(ok and size_ok, 'R-AXIS', f'{q.split("::")[1]}: random start normalised over the class axis', where, detail,
                       f'uniform start is not divided by its sum over the class axis (-2) re-inserted at -2 ({detail}; class count on axis -2: {size_ok})',
                       construct=f'R-AXIS::{q}::random-init')
@@ -785,12 +860,43 @@ def check_unsqueeze(run, A):
     from ..walk import ret_alts
     # axis = [a % (len(shape) + len(axis)) for a in axis]
     fut = mod = ins = False
+    undecided = False
     loops = [l for l in g.loops if l.kind == 'for']
     for l in loops:
         it = strip_views(l.iter)
         if not (is_call_to(it, 'builtin.sorted') and not call_parts(it)[2] and len(call_parts(it)[1]) == 1):
             continue
         cp = strip_views(call_arg(it, 0))
+        if cp.op == 'comp' and len(cp.args[1]) == 1 and len(cp.args[2]) == 1 and not cp.args[3]:
+            # any spelling of the normalisation (a % n; a + n if a < 0 else a): the element is evaluated for every admissible a with n standing for the future rank
+            from ..inteval import int_eval, UNKNOWN
+            def future_rank(m):
+                if m.op == 'binop' and m.args[0] == 'Add':
+                    parts = [strip_views(m.args[1]), strip_views(m.args[2])]
+                    lens = [x for x in parts if is_call_to(x, 'builtin.len') or (x.op == 'attr' and x.args[1] == 'ndim')]
+                    return len(lens) == 2 and any(is_call_to(x, 'builtin.len') and strip_views(call_arg(x, 0)).op == 'param' and strip_views(call_arg(x, 0)).args[0] == 'axis' for x in lens)
+                return False
+            el0 = cp.args[1][0]
+            ranks = [x for x in walk_terms(el0, into_mu=False) if future_rank(strip_views(x))]
+            if ranks and not (strip_views(el0).op == 'binop' and strip_views(el0).args[0] == 'Mod'):
+                verdict = True
+                for n_ in (2, 3, 4):
+                    for a_ in range(-n_, n_):
+                        env_ = {('term', x.id): n_ for x in ranks}
+                        env_[('elem', cp.args[2][0].id)] = a_
+                        v_ = int_eval(el0, env_)
+                        if v_ is UNKNOWN:
+                            verdict = None
+                            break
+                        if v_ != a_ % n_:
+                            verdict = False
+                            break
+                    if verdict is not True:
+                        break
+                if verdict is None:
+                    undecided = True
+                elif verdict:
+                    mod = fut = True
         if cp.op == 'comp' and len(cp.args[1]) == 1:
             el = strip_views(cp.args[1][0])
             if el.op == 'binop' and el.args[0] == 'Mod' and strip_views(el.args[1]).op == 'elem':
@@ -807,8 +913,11 @@ def check_unsqueeze(run, A):
                 ins = ins or (len(pos) == 3 and strip_views(pos[1]).op == 'elem' and strip_views(pos[1]).extra is l and const_val(pos[2]) == 1)
     r = [strip_views(x) for x in ret_alts(g)]
     resh = len(r) == 1 and is_call_to(r[0], 'numpy.reshape')
-    run.check(fut and mod and ins and resh, 'R-AXIS', 'unsqueeze: singleton axes inserted at the tied positions (modulo the final rank, ascending)', fn.loc(), '',
-              f'axes normalised modulo len(shape)+len(axis): {fut and mod}; inserted as size-1 axes in ascending order: {ins}; reshaped: {resh}', construct=f'R-AXIS::{q}::insertion')
+    if undecided and not (fut and mod):
+        run.unresolved('R-AXIS', 'unsqueeze: singleton axes inserted at the tied positions (modulo the final rank, ascending)', fn.loc(), 'the normalisation of the axes cannot be folded')
+    else:
+        run.check(fut and mod and ins and resh, 'R-AXIS', 'unsqueeze: singleton axes inserted at the tied positions (modulo the final rank, ascending)', fn.loc(), '',
+                  f'axes normalised modulo len(shape)+len(axis): {fut and mod}; inserted as size-1 axes in ascending order: {ins}; reshaped: {resh}', construct=f'R-AXIS::{q}::insertion')
     for cname, mod_ in (('GCACGMM', 'gcacgmm'), ('VMFCACGMM', 'vmfcacgmm')):
         fp = A.prog.func(f'{D}{mod_}::{cname}._predict')
         gp = A.graphs.get(fp)
@@ -824,7 +933,14 @@ def check_unsqueeze(run, A):
         fm = A.prog.func(f'{D}{mod_}::{cname}Trainer._m_step')
         gm = A.graphs.get(fm)
         sq = [e.term for e in gm.events if e.kind == 'call' and is_call_to(e.term, 'numpy.squeeze')]
-        oks = bool(sq) and all(strip_views(call_arg(c, 1, 'axis')).op == 'param' and strip_views(call_arg(c, 1, 'axis')).args[0] == 'weight_constant_axis' for c in sq)
+        def _axes_param(a_):
+            # weight_constant_axis itself, or tuple(weight_constant_axis) / list(...) of it
+            a_ = strip_views(a_)
+            for _ in range(4):
+                if is_call_to(a_, 'builtin.tuple', 'builtin.list') and len(call_parts(a_)[1]) == 1:
+                    a_ = strip_views(call_parts(a_)[1][0])
+            return a_
+        oks = bool(sq) and all(_axes_param(call_arg(c, 1, 'axis')).op == 'param' and _axes_param(call_arg(c, 1, 'axis')).args[0] == 'weight_constant_axis' for c in sq)
         ctor = [strip_views(x) for x in unwrap_gamma(gm.ret)]
         okc = False
         for c in ctor:
@@ -845,7 +961,7 @@ def check(run):
         'data-dependent denominator on the E-/M-step and initialiser paths. Numeric range of values is not decided.')
     run.trusted = ['documented class axis -2 of (..., K, N) affiliations', 'table PRECONDITIONED of divisions licensed by "every class has non-zero mass"']
     check_posterior_routine(run, A, POSTERIOR, -2, want_weight=True, want_mask=True)
-    check_posterior_routine(run, A, POSTERIOR_PA, -2, want_weight=False, want_mask=False)
+    check_posterior_routine(run, A, POSTERIOR_PA, -2, want_weight=False, want_mask=False, rank_fixed=True)
     check_posterior_return(run, A)
     check_models(run, A)
     check_predict_fit_symmetry(run, A)
